@@ -72,6 +72,22 @@ def run(ctx):
         route = ctx.rng.choice(['parse', 'parse', 'enforce', 'load'])
         for env in ((lo, up) if ctx.rng.random() < 0.5 else (up, lo)):
             cases.append(pc.record_text(toks, lang.render(toks, ctx.rng, leaf=env.text, wide=True), route, 'c01', lenv=env))
+    # an operator chain, then a parenthesised group, then another operator: every combination of
+    # and / or for the four operator positions, chains of 1-3 operands, optionally negated parts
+    L = [lang.LEAF0 + i for i in range(1, 7)]
+    for chain in (1, 2, 3):
+        for op1 in (lang.AND, lang.OR):
+            for op2 in (lang.AND, lang.OR):
+                for gop in (lang.AND, lang.OR):
+                    for op3 in (lang.AND, lang.OR, None):
+                        for neg in (0, 1, 2):
+                            toks = [L[0]]
+                            for i in range(1, chain):
+                                toks += [op1, L[i]]
+                            toks += [op2] + ([lang.NOT] if neg == 1 else []) + [lang.LP, L[3], gop] + ([lang.NOT] if neg == 2 else []) + [L[4], lang.RP]
+                            if op3 is not None:
+                                toks += [op3, L[5]]
+                            cases.append(pc.record_text(toks, lang.render(toks, ctx.rng, wide=True), ctx.rng.choice(['parse', 'enforce', 'load']), 'c01'))
     # the same parenthesised group several times in one rule
     for i in range(250 if q else 4000):
         toks = lang.repeated_group_tokens(ctx.rng)
